@@ -11,6 +11,7 @@ import BigDec.Driver.C08
 import BigDec.Driver.C09
 import BigDec.Driver.C10
 import BigDec.Driver.C11
+import BigDec.Driver.C12
 import BigDec.Driver.C15
 import BigDec.Driver.C19
 import BigDec.Driver.C18
@@ -34,6 +35,7 @@ def dispatch (prop op : String) (args : List String) (impl : String) : Verdict :
   | "C09" => Driver.C09.handle op args impl
   | "C10" => Driver.C10.handle op args impl
   | "C11" => Driver.C11.handle op args impl
+  | "C12" => Driver.C12.handle op args impl
   | "C15" => Driver.C15.handle op args impl
   | "C19" => Driver.C19.handle op args impl
   | "C18" => Driver.C18.handle op args impl
